@@ -297,6 +297,7 @@ def r2(ctx, rule: str = "C02-R2") -> None:
     ctx.ob(rule, "calculate_estimation/fits-weighted-data", len(ds) == 1 and norm(ds[0].value) == "self._data_provider.get_data(label)", ce,
            ds[0].stmt if ds else ce.node, "the per-index fit uses the provider's (already weighted) data unchanged")
     cs = lib.method_calls(ce, "calculate_residual")
+    ctx.sites(rule, "sites iterated at rules/c02.py:300 (cs)", len(cs), 1)
     for c in cs:
         ctx.ob(rule, "calculate_estimation/fits-prepared-matrix", norm(c.args[0]) == "matrix_container.matrix" and any(
             d.kind == "assign" and isinstance(d.value, ast.Call) and d.value.func.attr == "get_prepared_matrix_container"
@@ -434,6 +435,7 @@ def r5(ctx) -> None:
     # callers hand over matching labels / clps / axis
     ce = ctx.fn(EST, "EstimationProviderUnlinked.calculate_estimation")
     cs = lib.method_calls(ce, "calculate_clp_penalties")
+    ctx.sites('C02-R5', "sites iterated at rules/c02.py:437 (cs)", len(cs), 1)
     for c in cs:
         ok = [norm(a) for a in c.args] == ["clp_labels", "self._clps[label]", "global_axis"]
         ctx.ob("C02-R5", "calculate_estimation/penalty-arguments", ok, ce, lib.stmt_of(c), "penalties are computed from this dataset's labels, clps and global axis")
